@@ -166,12 +166,27 @@ theorem update_from_leaf_mutation_spec :
         = some (authPathOf H (Function.update g j d) n i, b) ∧
       (b = false → authPathOf H (Function.update g j d) n i = authPathOf H g n i) := by
   intro D _ H g n i j d hi hj hn
-  exact updateFromLeafMutation_spec H g n i j d hi hj hn
+  obtain ⟨b, h1, h2, _⟩ := updateFromLeafMutation_spec H g n i j d hi hj hn
+  exact ⟨b, h1, h2⟩
 example : (0 : Nat) < 7 ∧ (3 : Nat) < 7 ∧ (7 : Nat) < 2 ^ 63 := by decide
 /-- 7 leafs `1 … 7`, leaf 3 becomes 100: the proof `[2, 11]` of leaf 0 becomes `[2, 203]`; a mutation in another tree
     leaves it alone -/
 example : updateFromLeafMutation (fun a b : Nat => a + 2 * b) [2, 11] 0 ⟨3, 100, [3, 5]⟩ = some ([2, 203], true) ∧
     updateFromLeafMutation (fun a b : Nat => a + 2 * b) [2, 11] 0 ⟨5, 100, [5]⟩ = some ([2, 11], false) := by
+  decide +kernel
+
+/-- the flag of `update_from_leaf_mutation` exactly: `true` iff the mutated leaf `j` lies under one of the sibling
+    nodes of `i`'s path (i.e. `j ≠ i` is in the tree of `i`) - whether or not the recomputed digest differs -/
+theorem update_from_leaf_mutation_flag :
+  ∀ (D : Type) [DecidableEq D] (H : D → D → D) (g : Nat → D) (n i j : Nat) (d : D), i < n → j < n → n < 2 ^ 63 →
+    ∃ b, updateFromLeafMutation H (authPathOf H g n i) i ⟨j, d, authPathOf H g n j⟩
+        = some (authPathOf H (Function.update g j d) n i, b) ∧
+      (b = true ↔ ∃ t < (locate n i).1, sibBlk (i / 2 ^ t) = j / 2 ^ t) := by
+  intro D _ H g n i j d hi hj hn
+  obtain ⟨b, h1, _, h3⟩ := updateFromLeafMutation_spec H g n i j d hi hj hn
+  exact ⟨b, h1, h3⟩
+/-- leaf 3 "becomes" 4, the digest it holds: the proof of leaf 0 is unchanged, the routine still returns `true` -/
+example : updateFromLeafMutation (fun a b : Nat => a + 2 * b) [2, 11] 0 ⟨3, 4, [3, 5]⟩ = some ([2, 11], true) := by
   decide +kernel
 
 /-- **batch_update_from_leaf_mutation_spec**: `batch_update_from_leaf_mutation`, given the from-scratch paths of any
@@ -213,6 +228,16 @@ example : batchUpdateFromBatchLeafMutation (fun a b : Nat => a + 2 * b) [[2, 11]
       [0, 2, 5, 3, 6] [⟨3, 100, [3, 5]⟩, ⟨0, 50, [2, 11]⟩, ⟨5, 9, [5]⟩]
     = some ([[2, 203], [100, 54], [5], [3, 54], []], [0, 1, 3]) := by
   decide +kernel
+
+/-- the excluded branch of `batch_update_from_batch_leaf_mutation_spec`: a batch that mutates a leaf twice makes
+    `batch_update_from_batch_leaf_mutation` panic (`assert!(former_value.is_none())`), whatever proofs are handed -/
+theorem batch_update_from_batch_leaf_mutation_duplicate_panics :
+  ∀ (D : Type) [DecidableEq D] (H : D → D → D) (paths : List (List D)) (lis : List Nat) (lms : List (LeafMutation D)),
+    ¬ (lms.map (·.leaf_index)).Nodup → batchUpdateFromBatchLeafMutation H paths lis lms = none := by
+  intro D _ H paths lis lms h
+  exact batchUpdateFromBatchLeafMutation_dup_panics H paths lis lms h
+example : batchUpdateFromBatchLeafMutation (fun a b : Nat => a + 2 * b) [[2, 11]] [0]
+    [⟨1, 100, [1, 11]⟩, ⟨3, 7, [3, 5]⟩, ⟨1, 101, [1, 11]⟩] = none := by decide +kernel
 
 /-- `MmrAccumulator::batch_mutate_leaf_and_update_mps`: additionally the accumulator becomes the from-scratch one -/
 def batch_mutate_leaf_and_update_mps_spec_statement : Prop :=
